@@ -6,6 +6,7 @@
 //!   vh drive  <module> --seed S --n N --out F  impl -> spec (records a trace)
 mod common;
 mod der;
+mod manifest;
 mod prefixlaws;
 mod reschain;
 mod rfc1982;
@@ -39,6 +40,8 @@ fn main() {
         ("replay", "rtrconn") => rtrconn::replay(rest),
         ("replay", "rtrwire") => rtrwire::replay(rest),
         ("replay", "rrdp") => rrdp::replay(rest),
+        ("replay", "manifest") => manifest::replay(rest),
+        ("drive", "manifest") => manifest::drive(rest),
         ("drive", "rrdp") => rrdp::drive(rest),
         ("drive", "rtrwire") => rtrwire::drive(rest),
         ("drive", "rtrconn") => rtrconn::drive(rest),
